@@ -69,7 +69,7 @@ struct Tx {
   int req = -1;                              // request the question name belongs to (first label r<N>), -1 unknown
   size_t nth = 0;                            // n-th transmission of this question to this server
   int outcome = -1; uint32_t serial = 0; Bytes raw;
-  size_t seq = 0;
+  size_t seq = 0; uint64_t ev = 0;   // position in the global order of observed events
 };
 
 // Everything that was ever put on a wire towards the client, by whom
@@ -136,7 +136,7 @@ struct World {
 
   // ---- servers, traffic, provenance
   std::vector<ServerCfg> servers;
-  std::vector<Tx> txs; std::vector<Prov> provs; uint32_t next_serial = 1;
+  std::vector<Tx> txs; std::vector<Prov> provs; uint32_t next_serial = 1; uint64_t evseq = 0;
   std::vector<Rule> rules; std::vector<int> weights = std::vector<int>(O__COUNT, 0);
   int default_ttl_mode = 0;
   ref::Name unknown;
@@ -237,7 +237,7 @@ struct World {
 
   // The server at index s received one whole DNS message on socket vs.
   void server_receive(VSock &vs, const Bytes &raw) {
-    Tx tx; tx.t = now_us; tx.fd = vs.fd; tx.server = vs.server; tx.tcp = vs.tcp; tx.raw = raw; tx.seq = txs.size();
+    Tx tx; tx.t = now_us; tx.fd = vs.fd; tx.server = vs.server; tx.tcp = vs.tcp; tx.raw = raw; tx.seq = txs.size(); tx.ev = ++evseq;
     ref::Msg m; ref::Verdict v = ref::decode((const unsigned char *)raw.data(), raw.size(), m);
     if (v.lenient_ok && m.qd.size() == 1) {
       tx.decodable = true; tx.qid = m.id; tx.qname = m.qd[0].name; tx.qname_lower = ref::lower(ref::escape_name(m.qd[0].name)); tx.qtype = m.qd[0].type; tx.qclass = m.qd[0].klass; tx.rd = m.rd;
